@@ -372,6 +372,11 @@ func (c *cres) verifiedT(sigType int, first, reparsed error, haveReparsed bool, 
 		c.note("verify=ok")
 		count("c06-verify:" + c.S)
 	}
+	if !haveReparsed {
+		// "still verifies after being serialised and parsed back" fails as soon as the bytes do not parse back
+		c.note("reverify=unparseable")
+		c.fail("C06", "does-not-parse-back:"+S, "%s signed by its constructor does not parse back from its own bytes, so it cannot verify after the wire", S)
+	}
 	if haveReparsed {
 		if reparsed != nil {
 			c.note("reverify=fail")
